@@ -96,6 +96,7 @@ Definition dispatch (op : list N) (args : list (list N)) : list N * list N :=
                    | None => str "stuck"
                    end
      | SErr => [82]
+     | SFuel => str "fuel"
      | SStuck => str "stuck"
      end, [])
   else if list_eqb op (str "c20.build") then
